@@ -335,7 +335,10 @@ class Host(HeaderElement):
 		if self.host.endswith(']') and self.host.startswith('['):
 			self.host = self.host[1:-1]
 		if self.port:
-			self.port = integer(self.port)
+			try:
+				self.port = integer(self.port)
+			except ValueError:  # more digits than int() converts
+				raise InvalidHeader(_(u'Invalid Host header: %s'), self.value[:64])
 		if not self.hostname:
 			raise InvalidHeader(_(u'Invalid Host header: %s'), self.value)
 
